@@ -255,7 +255,10 @@ pub fn c06() -> TreeProp {
       let mut g = TreeGen::new();
       if rng.chance(2) {
         let n = 2 + rng.below(3);
-        let kids: Vec<T> = (0..n).map(|_| g.tree(rng, &cfg, cfg.depth, false)).collect();
+        // no CachedSource beneath a ReplaceSource: composite and stand-alone child share the cache, one sees it cold and the other warm, and a
+        // replay under a ReplaceSource is coarser than the fill (finding K5, a C10/C03 matter) — C06 compares like with like
+        let kcfg = GenCfg { cached_under_replace: false, ..cfg.clone() };
+        let kids: Vec<T> = (0..n).map(|_| g.tree(rng, &kcfg, kcfg.depth, false)).collect();
         let mut trees = vec![T::Concat(kids.iter().map(|k| (false, k.clone())).collect())]; trees.extend(kids);
         let mut script = vec![]; for i in 0..trees.len() { script.push((i, Op::Stream(true, false))); script.push((i, Op::Stream(false, false))); script.push((i, Op::Src)); script.push((i, Op::Map(true))); }
         Case { trees, script, note: "C06 concat".into() }
